@@ -53,6 +53,7 @@ var c17Faults = []struct {
 	{"failing-builtin-in-pipeline", blk(1, "(->> [1 2]", "  (nth 5))")},
 	{"failing-middle-stage-of-pipeline", blk(1, "(->> [1 2]", "  (nth 5)", "  (list))")},
 	{"call-non-function-in-pipeline", blk(1, "(-> 5", "  (1))")},
+	{"failing-builtin-in-nested-pipelines", blk(2, "(-> [1 2]", "  (conj 3)", "  (->> (nth 7)))")},
 }
 
 var c17Wrappers = []struct {
